@@ -455,8 +455,8 @@ def program_groups(ctx):
     groups.append({"name": "mode-interactive", "kind": "corpus", "mode": ":i", "ops": ["fold", "ranges", "opt"], "must_parse": True,
                    "sources": ["a = (1, 2)\n", "a; b = 1; c\n", "pass\n", "if a:\n    b = (1, 2)\n\n"],
                    "note": "Mode::Interactive roots (Mod::Interactive)"})
-    n_clean = 250 if ctx.quick else 4000
-    n_full = 400 if ctx.quick else 8000
+    n_clean = 1200 if ctx.quick else 6000
+    n_full = 2000 if ctx.quick else 12000
     r = ctx.rng("clean")
     g = RandProg(r, clean=True)
     groups.append({"name": "random-clean", "kind": "random", "sources": [g.program(r.choice([2, 3, 3, 4])) for _ in range(n_clean)],
@@ -468,6 +468,14 @@ def program_groups(ctx):
     groups.append({"name": "random-full", "kind": "random", "sources": [g.program(r.choice([2, 3, 3, 4])) for _ in range(n_full)],
                    "ops": ["fold", "visit", "opt", "ranges"],
                    "note": "random programs over the whole statement/expression/pattern grammar (no store-context constant tuples)"})
+    if not ctx.quick:
+        r = ctx.rng("allranges")
+        g = RandProg(r, clean=False)
+        groups.append({"name": "allranges", "kind": "corpus", "features": "all-ranges", "coverage": False,
+                       "sources": DIRECTED + [g.program(r.choice([2, 3, 4])) for _ in range(1500)] + stdlib_sources(STDLIB_QUICK),
+                       "ops": ["fold", "visit", "ranges", "opt"],
+                       "note": "harness built with feature all-nodes-with-ranges: optional ranges present, will_map_user_cfg / "
+                               "map_user_cfg call the user callbacks"})
     std = STDLIB_QUICK if ctx.quick else STDLIB_QUICK + STDLIB_THOROUGH
     groups.append({"name": "stdlib", "kind": "corpus", "sources": stdlib_sources(std), "ops": ["fold", "visit", "walk", "ranges", "opt"],
                    "note": "CPython 3.11 standard library files", "coverage": True})
